@@ -10,10 +10,14 @@ import (
 	"strconv"
 	"sync"
 
+	"github.com/spikeekips/mitum/base"
+	"github.com/spikeekips/mitum/isaac"
+	isaacoperation "github.com/spikeekips/mitum/isaac/operation"
+
 	"mitumverif/internal/h"
 )
 
-func init() { h.Register("C10", run) }
+func init() { h.Register("C10", Run) }
 
 // CaseIn is one replay case: a chain whose last block is the block under test.
 type CaseIn struct {
@@ -36,7 +40,8 @@ type CaseOut struct {
 	NOps   int          `json:"nops"`
 }
 
-func run(args []string) error {
+// Run is the harness entry (also registered as C17 by package c17).
+func Run(args []string) error {
 	if len(args) < 1 {
 		return fmt.Errorf("usage: C10 replay|selftest --in cases.ndjson --out res.ndjson --work dir")
 	}
@@ -44,6 +49,8 @@ func run(args []string) error {
 	switch args[0] {
 	case "replay":
 		return replay(fl)
+	case "threshold":
+		return thresholdTable(fl)
 	case "facts":
 		// prints "<id> <fact hash>" for model operations (one JSON OpT per line): the order of
 		// expels inside a voteproof is the order of their fact hashes
@@ -79,6 +86,7 @@ func replay(fl map[string]string) error {
 	if work == "" {
 		work = filepath.Join(os.TempDir(), fmt.Sprintf("verif-c10-%d", os.Getpid()))
 	}
+	_ = os.RemoveAll(work)
 	if err := os.MkdirAll(work, 0o700); err != nil {
 		return err
 	}
@@ -207,4 +215,60 @@ func RunCase(ws *Worlds, forkroot string, c CaseIn, seed int64, o *CaseOut) {
 			r.Results[i].Reason = ReasonTag(r.Results[i].Reason)
 		}
 	}
+}
+
+// thresholdTable calls the real base.CheckFactSignsBySuffrage for suffrages of n real nodes
+// and k valid member signatures (the join / network-policy acceptance rule) and reports the
+// verdict next to the exact one (k*1000 >= t10*n).
+func thresholdTable(fl map[string]string) error {
+	out, err := h.NewOut(fl["out"])
+	if err != nil {
+		return err
+	}
+	defer out.Close()
+	maxn, _ := strconv.Atoi(fl["maxn"])
+	if maxn < 1 {
+		maxn = 48
+	}
+	cast := NewCast("threshold", []byte("threshold"))
+	fact := isaacoperation.NewSuffrageJoinFact(base.Token("t"), cast.Actor("c1").Addr, 1)
+	var nodes []base.Node
+	var signs []base.NodeSign
+	for i := 0; i < maxn; i++ {
+		a := cast.Actor(fmt.Sprintf("t%02d", i))
+		nodes = append(nodes, isaac.NewNode(a.Own.Publickey(), a.Addr))
+		ns, err := base.NewBaseNodeSignFromFact(a.Addr, a.Own, cast.NetworkID, fact)
+		if err != nil {
+			return err
+		}
+		signs = append(signs, ns)
+	}
+	type row struct {
+		N    int  `json:"n"`
+		K    int  `json:"k"`
+		T10  int  `json:"t10"`
+		Real bool `json:"real"`
+		Want bool `json:"want"`
+	}
+	total, diff := 0, 0
+	for n := 1; n <= maxn; n++ {
+		suf, err := isaac.NewSuffrage(nodes[:n])
+		if err != nil {
+			return err
+		}
+		for t10 := 510; t10 <= 1000; t10++ {
+			th := base.Threshold(float64(t10) / 10)
+			for k := 0; k <= n; k++ {
+				total++
+				real := base.CheckFactSignsBySuffrage(suf, th, signs[:k]) == nil
+				want := k*1000 >= t10*n
+				if real != want {
+					diff++
+					out.Emit(row{N: n, K: k, T10: t10, Real: real, Want: want})
+				}
+			}
+		}
+	}
+	out.Emit(map[string]int{"total": total, "diff": diff})
+	return nil
 }
